@@ -1,0 +1,70 @@
+//go:build verif
+
+// Contracts for the deductive verifier in /verif (govc). Only compiled with -tags verif.
+//
+// The bootloader package is the boundary of property C17: package boot decides WHAT is written to
+// the boot environment and in which order, the implementations behind these interfaces do the I/O.
+// They are assumed (T5) not to write any heap state of their callers (in particular not the maps
+// they are handed).
+
+package bootloader
+
+//@ func Find
+//@   trusted
+//@   assigns nothing
+
+//@ func (bootloader.Bootloader).GetBootVars
+//@   trusted
+//@   assigns nothing
+
+//@ func (bootloader.Bootloader).SetBootVars
+//@   trusted
+//@   assigns nothing
+
+//@ func (bootloader.Bootloader).Name
+//@   trusted
+//@   assigns nothing
+
+//@ func (bootloader.ExtractedRunKernelImageBootloader).GetBootVars
+//@   trusted
+//@   assigns nothing
+
+//@ func (bootloader.ExtractedRunKernelImageBootloader).SetBootVars
+//@   trusted
+//@   assigns nothing
+
+//@ func (bootloader.ExtractedRunKernelImageBootloader).Name
+//@   trusted
+//@   assigns nothing
+
+//@ func (bootloader.ExtractedRunKernelImageBootloader).Kernel
+//@   trusted
+//@   assigns nothing
+
+//@ func (bootloader.ExtractedRunKernelImageBootloader).TryKernel
+//@   trusted
+//@   assigns nothing
+
+//@ func (bootloader.ExtractedRunKernelImageBootloader).EnableKernel
+//@   trusted
+//@   assigns nothing
+
+//@ func (bootloader.ExtractedRunKernelImageBootloader).EnableTryKernel
+//@   trusted
+//@   assigns nothing
+
+//@ func (bootloader.ExtractedRunKernelImageBootloader).DisableTryKernel
+//@   trusted
+//@   assigns nothing
+
+//@ func (bootloader.NotScriptableBootloader).GetBootVars
+//@   trusted
+//@   assigns nothing
+
+//@ func (bootloader.NotScriptableBootloader).SetBootVarsFromInitramfs
+//@   trusted
+//@   assigns nothing
+
+//@ func (bootloader.NotScriptableBootloader).Name
+//@   trusted
+//@   assigns nothing
